@@ -140,11 +140,16 @@ func genStructCall(r *detsim.Rand, types []int, overrides bool) Call {
 	if r.Chance(1, 6) {
 		c.Shape = 1 + r.Intn(6)
 	}
+	if c.Rule != 0 && c.Entry != ENested && c.Entry != EChain && r.Chance(1, 3) {
+		c.Keep = true
+	}
 	return c
 }
 
 func genAnyCall(r *detsim.Rand, types []int) Call {
-	switch r.Weighted([]int{55, 10, 3, 7, 3, 6, 2, 4, 3, 4, 3, 4, 3, 3, 2}) {
+	switch r.Weighted([]int{55, 10, 3, 7, 3, 6, 2, 4, 3, 4, 3, 4, 3, 3, 2, 3}) {
+	case 15:
+		return Call{Entry: EDumpJson, Type: types[r.Intn(len(types))], Val: r.Intn(12), Shape: r.Intn(2)}
 	case 12:
 		return Call{Entry: EEscape, Val: r.Intn(len(escapeInputs))}
 	case 13:
